@@ -1,6 +1,7 @@
 (* C02 — RFC 7396 merge patch application (v5).  The model of MergePatch (ImplMerge.api_merge,
    tied to merge.go by the correspondence) refines the RFC's MergePatch (Rfc7396.merge_patch). *)
 From JP Require Import Bytes Json Text Strings Den ImplV5 ImplMerge Rfc7396 JsonFacts MergeFacts Abs ImplMergeFacts.
+From JP Require Import Scan OutputFacts.
 
 (* For every pair of well-formed texts with a non-null document (no duplicate names): MergePatch
    returns a scalar or null patch verbatim; otherwise it returns the encoding of a node whose
@@ -44,6 +45,24 @@ Theorem C02_member : forall t pms k,
   aget k (members_of (merge_patch t (OObj pms))) = merge_lookup (aget k pms) (aget k (members_of t)).
 Proof. intros. rewrite merge_patch_obj. simpl. now apply merge_members_lookup. Qed.
 Print Assumptions C02_member.
+
+(* the output BYTES: for every pair of well-formed texts (non-null document, no duplicate names) the
+   bytes MergePatch returns are one well-formed JSON text (the independent reader Text.parse reads
+   it, the scanner accepts it) whose value is exactly RFC 7396's MergePatch(document, patch).
+   No hypothesis on nesting: the result is never nested deeper than the deeper of the two inputs. *)
+Theorem C02_merge_output_bytes : forall doc patch td tp,
+  parse doc = Some td -> parse patch = Some tp -> td <> TNull -> tnodup td = true -> tnodup tp = true ->
+  exists out t', api_merge false doc patch = MOut out /\ parse out = Some t' /\
+                 den t' = merge_patch (den td) (den tp) /\ valid_gen out = true.
+Proof. exact api_merge_output. Qed.
+Print Assumptions C02_merge_output_bytes.
+
+(* ... and without any hypothesis on the inputs (duplicate names included): whatever MergePatch or
+   MergeMergePatches returns is a well-formed JSON text *)
+Theorem C02_merge_output_wellformed : forall mm doc patch out,
+  api_merge mm doc patch = MOut out -> exists t', parse out = Some t'.
+Proof. exact api_merge_output_general. Qed.
+Print Assumptions C02_merge_output_wellformed.
 
 Example C02_nonvacuous :
   api_merge false (B "{""a"":{""x"":1,""y"":[1,{""q"":null}]},""k"":""s"",""n"":1e400}")
